@@ -298,6 +298,8 @@ func famC01(r *Run) {
 	}
 	famNumberSpellings(r)
 	famNearTwins(r)
+	famLongChains(r)
+	famPipeJSONStrings(r)
 }
 
 // ---- C02: projections ----
@@ -335,6 +337,7 @@ func famC02(r *Run) {
 		r.addTree("null-sensitive-rhs", t, text, doc, modeFor(text, doc))
 	}
 	famFunctionEdges(r)
+	famObjectEquality(r)
 }
 
 // ---- C03: precedence ----
@@ -410,6 +413,8 @@ func famC03(r *Run) {
 			}
 		}
 	}
+	famSingleWs(r)
+	famLongChains(r)
 }
 
 func sameNode(a, b jmespath.VerifNode) bool {
@@ -512,6 +517,8 @@ func famC04(r *Run) {
 	}
 	famC04extra(r)
 	famBackslashRuns(r)
+	famQuotedControl(r)
+	famBadQuoted(r)
 }
 
 // ---- C05: no panic, always returns ----
@@ -650,6 +657,10 @@ func famC05(r *Run) {
 	famC05extra(r)
 	famChains(r)
 	famManyDistinct(r)
+	famBadQuoted(r)
+	famNonFinite(r)
+	famLongChains(r)
+	famQuotedControl(r)
 }
 
 // ---- C06: input never modified (the generic oracle does the work) ----
@@ -738,6 +749,7 @@ func famC07(r *Run) {
 	}
 	r.corpusSearch("compliance", func(f exprFeatures) bool { return f.lexOK && f.logic && !f.funcs && !f.orderExposing })
 	famNotComparisons(r)
+	famObjectEquality(r)
 }
 
 // ---- C08: slices ----
@@ -901,6 +913,8 @@ func famC09(r *Run) {
 	}
 	famToNumber(r)
 	famFunctionEdges(r)
+	famObjectEquality(r)
+	famNonFinite(r)
 }
 
 // ---- C10: ill-typed calls ----
@@ -964,6 +978,8 @@ func famC10(r *Run) {
 		}
 	}
 	famFunctionEdges(r)
+	famGoNumbers(r)
+	famNonFinite(r)
 }
 
 // ---- C11: error propagation ----
@@ -1091,6 +1107,7 @@ func famC17(r *Run) {
 	}
 	famMustCompileText(r)
 	famBadUTF8Offsets(r)
+	famBadQuoted(r)
 }
 
 func (r *Run) contractC17(family, expr string) {
